@@ -723,13 +723,52 @@ class Tracer:
         for n in ast.walk(s):
             if isinstance(n, ast.Name) and isinstance(n.ctx, ast.Store) and not has_D(e.get(n.id, U)):
                 e[n.id] = U
-        a, st = self.block(s.body, e, ctx)
+        a, st = self.loop_block(s.body, e, ctx)
         if st not in ('fall', 'dead'):
             raise Unsupported('return inside a loop that touches the traced value')
         self.merge(env, [e] + ([] if at_least_once else [dict(env)]) if st == 'fall' else [dict(env)])
         if at_least_once:
             return a, st
         return ([('MaybeSkip', a)] if a else []), 'fall'
+
+    @staticmethod
+    def _may_leave(stmt):
+        """does this statement contain a break / continue of the enclosing loop?"""
+        def walk(n):
+            if isinstance(n, (ast.Break, ast.Continue)):
+                return True
+            if isinstance(n, (ast.For, ast.While, ast.FunctionDef)):
+                return False
+            return any(walk(c) for c in ast.iter_child_nodes(n))
+        return walk(stmt)
+
+    def loop_block(self, stmts, env, ctx):
+        """a loop body: whatever follows a conditional `break` / `continue` may be skipped (MaybeSkip)"""
+        acts = []
+        for i, st in enumerate(stmts):
+            if isinstance(st, (ast.Break, ast.Continue)):
+                return acts, 'fall'
+            leaves = self._may_leave(st)
+            if leaves and isinstance(st, ast.If) and not self.mentions(st.test, env):
+                c = self.try_const(st.test, env)
+                if c is not None:
+                    branch = st.body if c[1] else st.orelse
+                    if any(self._may_leave(b) for b in branch):
+                        a, status = self.loop_block(branch, env, ctx)
+                        return acts + a, status
+                    leaves = False
+            a, status = self.stmt(st, env, ctx, None)
+            acts += a
+            if status != 'fall':
+                return acts, status
+            if leaves:
+                e2 = dict(env)
+                a2, st2 = self.loop_block(stmts[i + 1:], e2, ctx)
+                if st2 not in ('fall', 'dead'):
+                    raise Unsupported('return inside a loop after a conditional break')
+                self.merge(env, [e2, dict(env)] if st2 == 'fall' else [dict(env)])
+                return acts + ([('MaybeSkip', a2)] if a2 else []), 'fall'
+        return acts, 'fall'
 
     def _has_fitted(self, body):
         for b in body:
